@@ -39,16 +39,18 @@ def gen_case(rng, cid, nops, plain_names=False, today=False):
                 ops.append({"op": "write", "k": nextk - 1, "req": req, "p": "p%d" % pay, "st": 1}); pay += 1
         elif r < 0.5 and open_k:
             k = rng.choice(list(open_k)); d, req = open_k[k]
-            ops.append({"op": "write", "k": k, "req": req, "p": "p%d" % pay, "st": rng.choice([1, 1, 2, 4])}); pay += 1
+            ops.append({"op": "write", "k": k, "req": req, "p": "p%d" % pay, "st": rng.choice([1, 1, 2, 4]),
+                        "big": rng.choice([0] * 12 + [3900, 5000, 70000, 140000])}); pay += 1
         elif r < 0.68 and open_k:
             k = rng.choice(list(open_k)); del open_k[k]
-            ops.append({"op": "close", "k": k})
+            ops.append({"op": "close" if rng.random() < 0.85 else "abandon", "k": k})   # abandon = recorder killed, no compaction
         elif r < 0.78:
             d, req = rng.choice(runs)
             if any(v[1] == req for v in open_k.values()):
                 continue        # manual edits of a run that is still being recorded are refused upstream (C20)
             if rng.random() < 0.15: req = "nosuchreq"
-            ops.append({"op": "update", "d": d, "req": req, "p": "p%d" % pay, "st": rng.choice([2, 4])}); pay += 1
+            ops.append({"op": "update", "d": d, "req": req, "p": "p%d" % pay, "st": rng.choice([2, 4]),
+                        "big": rng.choice([0] * 8 + [70000])}); pay += 1
         elif r < 0.85:
             d, d2 = rng.sample(range(nd), 2)
             if busy(d) or busy(d2): continue
@@ -85,6 +87,8 @@ class Spec:
             run = self.open.get(o["k"])
             if run is not None:
                 run["p"] = o["p"]; run["age"] = 0
+        elif o["op"] == "abandon":
+            self.open.pop(o["k"], None)
         elif o["op"] == "close":
             run = self.open.pop(o["k"], None)
             if run is not None and run["p"] is not None:
